@@ -117,11 +117,20 @@ def gen_env(tier, R):
             else:
                 ops.append(f"(remf {s(n)})")
         out.append(f"(env _ {qs} (ops {' '.join(ops)}))")
+    out += gen_respell(tier, R)
+    return out
+
+
+def gen_respell(tier, R):
+    """scripts over the names registered in a real StaticEnvironment (ASCII, mixed-case and non-ASCII names; the whole standard library), evaluated with respelled
+    identifiers and respelled registrations (C19), and validated-then-executed against that environment (C10)"""
+    out = []
     # evaluating a tree is unaffected by the letter case of identifiers and of registered names
     for _ in range(1500 if tier == 'quick' else 100000):
         t = text.rnd_tree(R, R.randint(1, 5))
         txt = text.layout(text.toks(t, 1, 'min', R), R, recase=False, dense=0.1, tail=False)
         out.append("(respell _ " + " ".join(str(ord(c)) for c in txt) + ")")
-    for src in ["MAX(1, x)", "Length(Abc) + y_1", "If_Then(X > 1, 'a', 'b')", "ünï + ÜNÏ", "not NOTX", "Str(E5) + lowercase(ABC)"]:
+    for src in ["MAX(1, x)", "Length(Abc) + y_1", "If_Then(X > 1, 'a', 'b')", "ünï + ÜNÏ", "not NOTX", "Str(E5) + lowercase(ABC)", "ÜNÏ", "Ünï * 2", "Ä(1, ünÏ)", "ä(Ä(x))", "f(ÜNÏ) = F(ünï)",
+                "G_2(Ä())", "[ÜNÏ, Abc, ABC]", "if_then(ÜNÏ > 1, Ä(1), ä(2))"]:
         out.append("(respell _ " + " ".join(str(ord(c)) for c in src) + ")")
     return out
